@@ -1411,6 +1411,10 @@ impl<'s> Walker<'s> {
                 if segs.len() >= 2 && segs[segs.len() - 2] == "consts" && segs[segs.len() - 1] == "PI" {
                     let r = self.src.range(e.span());
                     self.replace(r, "f64_const_pi()", "R7");
+                } else if segs.len() >= 2 && segs[segs.len() - 2] == "consts" && ["TAU", "E", "FRAC_PI_2", "FRAC_PI_3", "FRAC_PI_4", "FRAC_PI_6", "FRAC_PI_8", "FRAC_1_PI", "FRAC_2_PI", "FRAC_2_SQRT_PI", "SQRT_2", "FRAC_1_SQRT_2", "LN_2", "LN_10", "LOG2_E", "LOG10_E", "LOG2_10", "LOG10_2"].contains(&segs[segs.len() - 1].as_str()) {
+                    // R7: the other constants of core::f64::consts: distinct uninterpreted values
+                    let r = self.src.range(e.span());
+                    self.replace(r, &format!("f64_const_named(\"{}\")", segs[segs.len() - 1]), "R7");
                 } else if segs.len() >= 2 && segs[segs.len() - 2] == "f64" && ["EPSILON", "MAX", "MIN", "MIN_POSITIVE", "INFINITY", "NEG_INFINITY", "NAN"].contains(&segs[segs.len() - 1].as_str()) {
                     let r = self.src.range(e.span());
                     self.replace(r, &format!("f64_const_{}()", segs[segs.len() - 1].to_lowercase()), "R7");
